@@ -31,7 +31,8 @@
 EXTENDS Integers, Sequences, FiniteSets, TLC
 
 CONSTANTS Deviations,   \* open deviation tags = model of what the code is known to do; {} = intended design
-          MaxLen        \* number of operations per behaviour (MC bound / GEN program length)
+          MaxLen,       \* number of operations per behaviour (MC bound / GEN program length)
+          MCLayers      \* MC: semantic stacks of up to MCLayers layers (4 = all 32 of them)
 
 None    == "none"
 Empty   == "empty"      \* zero bytes delivered without error although no such part exists (EC deviation only)
@@ -58,7 +59,7 @@ IsStack(s) == /\ Len(s) >= 1
 Stacks(d) == UNION {{s \in [1..n -> Mws \cup Bases] : IsStack(s)} : n \in 1..d}
 \* the layers that matter for visibility (codecs erased)
 Sem(s) == LET t == SelectSeq(s, LAMBDA x : Kind(x) \in SemKinds) IN [i \in 1..Len(t) |-> Kind(t[i])]
-SemStacks == {Sem(s) : s \in Stacks(4)}
+SemStacks == {Sem(s) : s \in Stacks(MCLayers)}
 Has(sm, k) == \E i \in 1..Len(sm) : sm[i] = k
 Pos(sm, k) == CHOOSE i \in 1..Len(sm) : sm[i] = k
 
@@ -140,31 +141,38 @@ WriteL(s, i, mode, id, v) ==
 RECURSIVE GetL(_, _, _, _)
 GetL(s, i, mode, id) ==
   LET k == s.sem[i] IN
-  CASE k = "fs"     -> [v |-> s.m[id], s |-> s, t |-> {}]
-    [] k = "sql"    -> [v |-> ApplyW(s.staged, s.m)[id], s |-> s, t |-> {}]
+  \* (via = the branches taken, used by GEN to spread the generated programs over the branch structure)
+  CASE k = "fs"     -> [v |-> s.m[id], s |-> s, t |-> {}, via |-> <<IF s.m[id] = None THEN "fs-miss" ELSE "fs-hit">>]
+    [] k = "sql"    -> [v |-> ApplyW(s.staged, s.m)[id], s |-> s, t |-> {},
+                        via |-> <<IF id \in IdsOf(s.staged) THEN "sql-pending"
+                                  ELSE IF s.m[id] = None THEN "sql-miss" ELSE "sql-hit">>]
     [] k = "outbox" -> LET le == LastEntry(IF mode = "tx" THEN s.ob \o s.pob ELSE s.ob, id) IN
-                       IF le = "absent" THEN GetL(s, i + 1, mode, id) ELSE [v |-> le, s |-> s, t |-> {}]
+                       IF le = "absent"
+                       THEN LET r == GetL(s, i + 1, mode, id) IN [r EXCEPT !.via = <<"ob-pass">> \o @]
+                       ELSE [v |-> le, s |-> s, t |-> {},
+                             via |-> <<IF le = None THEN "ob-del" ELSE IF LastEntry(s.ob, id) = le THEN "ob-put" ELSE "ob-put-pending",
+                                       IF GetL(s, i + 1, mode, id).v = None THEN "inner-absent" ELSE "inner-present">>]
     [] k = "ec"     -> LET r == GetL(s, i + 1, mode, id) IN
                        \* openPartReaders treats "no shard has the part" as "all shards need healing":
                        \* the read delivers zero bytes and re-creates header-only shards
                        \* (healing calls PutPart with the reader's tx: with a nil tx and an outbox shard store
                        \*  below, that PutPart dereferences the nil tx and the process dies - "CRASH")
                        IF r.v = None /\ EcDev
-                       THEN [v |-> Empty, s |-> [r.s EXCEPT !.zombie = @ \cup {id}],
+                       THEN [v |-> Empty, s |-> [r.s EXCEPT !.zombie = @ \cup {id}], via |-> <<"ec-heal-missing">> \o r.via,
                              t |-> r.t \cup {EcTag} \cup (IF mode = "nil" /\ \E k2 \in (i + 1)..Len(s.sem) : s.sem[k2] = "outbox"
                                                          THEN {"CRASH"} ELSE {})]
                        ELSE r
     [] k = "cache"  -> IF s.cache[id] # None
-                       THEN [v |-> s.cache[id], s |-> s,
+                       THEN [v |-> s.cache[id], s |-> s, via |-> <<"cache-hit">>,
                              t |-> (IF id \in s.taint THEN {CacheTag} ELSE {}) \cup (IF s.cache[id] = Empty THEN {EcTag} ELSE {})]
                        ELSE LET r == GetL(s, i + 1, mode, id)
                                 uncommitted == mode = "tx" /\ s.tx = "rw" IN
                             \* intended: a cache only ever holds committed content; the code fills on every miss
                             IF r.v # None /\ Cacheable(s, r.v) /\ (CacheDev \/ ~uncommitted)
-                            THEN [v |-> r.v, t |-> r.t,
+                            THEN [v |-> r.v, t |-> r.t, via |-> <<"cache-fill">> \o r.via,
                                   s |-> [r.s EXCEPT !.cache[id] = r.v,
                                                     !.taint = IF uncommitted THEN @ \cup {id} ELSE @ \ {id}]]
-                            ELSE r
+                            ELSE [r EXCEPT !.via = <<"cache-miss">> \o @]
 
 \* ---- GetPartIds through layer i
 RECURSIVE IdsL(_, _, _)
